@@ -117,6 +117,36 @@ TEXT = {
         note=COMMON_NOTE,
         technique="TLC model checking of the remainder identity (MC_Rem) + TLA+ trace validation (functional)",
         ref="DESIGN.md section 7 C09"),
+    "C10": dict(
+        level="Relational specification, no square root in the oracle: from x alone the leading exponent E = floor(adj(x)/2) of the "
+              "root and the grid unit u = 10^(E-p+1) are fixed; the result r is accepted iff it lies on the grid, f in {r, r-u} "
+              "brackets the root (f^2 <= x < (f+u)^2) and r is the neighbour the mode selects, using exactness f^2 = x and the "
+              "comparison of (2f+u)^2 with 4x for the tie rules. TLC validates every recorded call: perfect squares, perfect "
+              "squares +-1 unit in a digit 3..60 places away, squares of rounding midpoints and their +-1 neighbours, roots with "
+              "5000..1 / 4999..9 tails, inputs longer than 2(p+5) digits, scales of both parities to +-2000, p in 1..150 and 100, "
+              "7 modes, sqrt / sqrt_with_context / BigDecimalRef forms (abs, copysign), negative => None, zero => zero, up to "
+              "500/2000 digits.",
+        note=COMMON_NOTE,
+        technique="relational TLA+ trace validation with TLC (squares and comparisons only)",
+        ref="DESIGN.md section 7 C10"),
+    "C11": dict(
+        level="Same relational scheme with cubes (E = floor(adj/3), (2f+u)^3 vs 8x), Floor/Ceiling interpreted on the signed value so "
+              "that the mirror law cbrt(-x, m) = -cbrt(x, mirror(m)) is part of the relation; all residues of the scale mod 3, "
+              "perfect cubes +-1 far unit, midpoint cubes, inputs longer than 3(p+4) digits, both signs, p in 1..150/160.",
+        note=COMMON_NOTE,
+        technique="relational TLA+ trace validation with TLC (cubes and comparisons only)",
+        ref="DESIGN.md section 7 C11"),
+    "C12": dict(
+        level="Relation: sign(r) = sign(x), |x*r - 1| < |x|*u with u one unit of the p-th digit of 1/x, and x*r = 1 exactly whenever "
+              "1/x terminates within p digits (divisibility of a power of ten, decided by one division only when x is short "
+              "enough to divide it); a history variable enforces inverse(-x, mirror(m)) = -inverse(x, m); a watchdog timeout is an "
+              "unexplained event (termination). Driver: all 2^i 5^j (i <= 24/60, j <= 12/30) at p = exact length + {-1,0,1,2,3,6} "
+              "under every mode, 99..9 / 100..01 / powers of ten at p in {1..5, 100}, random x to 400/1500 digits with p in 1..150, "
+              "scales to +-2000, bit lengths around the f64 underflow of the initial guess, `1 / x` with primitive ones. The "
+              "open known finding KF-C12-small-precision (p <= 3, less than two units off) is reported as KNOWN-FINDING.",
+        note=COMMON_NOTE,
+        technique="relational, stateful TLA+ trace validation with TLC; named deviation for the recorded known finding",
+        ref="DESIGN.md section 7 C12"),
     "C16": dict(
         level="The specification defines {:.N} as: a numeral with exactly N fraction digits whose value is RoundToScale(x, N, "
               "configured mode) - the same operator that decides C06 - or, for integers whose padding would exceed the limit, an "
